@@ -152,6 +152,7 @@ var errAborted = errors.New("verif c14: case aborted by the harness")
 
 type run struct {
 	seenReqs []Req // requests the handler received (retained, see the "ret" op)
+	sc       Script
 	tp       *transport
 	pl       *plan
 	rep      *kit.Report
@@ -343,6 +344,9 @@ func (r *run) handler(_ context.Context, srv freighter.ServerStream[Req, Res]) (
 			}
 			if r.cGot.Load() < int64(r.pl.nResp) {
 				r.rep.Class("rt-unread-at-return")
+			}
+			if r.sc.RetIdleMs > 0 {
+				time.Sleep(time.Duration(r.sc.RetIdleMs) * time.Millisecond)
 			}
 			r.hRetAt.Store(time.Now().UnixNano())
 			r.finish(i)
@@ -629,7 +633,7 @@ func (tp *transport) execute(sc Script, rep *kit.Report) error {
 	ctx, cancel := context.WithCancel(context.Background())
 	defer cancel()
 	r := &run{
-		tp: tp, pl: pl, rep: rep, kind: kind, ret: kind.make(pl.ret.Wrap),
+		sc: sc, tp: tp, pl: pl, rep: rep, kind: kind, ret: kind.make(pl.ret.Wrap),
 		done: make([]chan struct{}, len(pl.ops)), abortCh: make(chan struct{}), cancel: cancel,
 		cDone: make(chan struct{}), hDone: make(chan struct{}),
 	}
